@@ -114,10 +114,13 @@ CHECKS = {
                 technique="explicit-state BFS over call histories of the real library with a whole-state key (digest of the library's writable sections, tables, locale, cwd, live blocks), closed; plus all ordered pairs and core triples",
                 text="A state is the history reaching it, replayed in a fresh process; its key digests the library's writable static storage (sections renamed at "
                      "build time), the generated table object, the process locale, cwd and the live library blocks. From every state every op of the alphabet "
-                     "(~500 ops: first/middle/last succeeding, first/last failing and a 1e-7 neighbour tuple of every entry point, XRayInit, deprecated setters) is "
+                     "(~700 ops: first/middle/last succeeding, first/last failing and a 1e-7 neighbour tuple of every entry point, one succeeding tuple per value of every "
+                     "small integer argument, crystal queries on transient objects whose address the next crystal reuses, XRayInit, deprecated setters) is "
                      "executed and its result compared bit for bit with the same op in a freshly exec'd process; a changed key opens a new state. On a pure library "
                      "the reachable set is one state and the search closes: purity for histories of any length over the alphabet. All ordered pairs and all "
-                     "triples over a core run in long-lived processes as a defence against state the key cannot see; C and comma-decimal locale.",
+                     "triples over a core run in long-lived processes as a defence against state the key cannot see; C and comma-decimal locale. Fresh reference "
+                     "processes and history processes fill the stack below each call and fresh heap blocks with different bytes, so a result that depends on "
+                     "uninitialised memory differs by construction.",
                 note="Argument values outside the alphabet are not covered; libc-internal state other than locale/cwd/stdio is not in the key."),
     "C19": dict(level="translation_validation", engine="ENUM", ref="4/C19",
                 technique="exhaustive enumeration of one argument stream through the real C library and the real Java implementation (same binary protocol), record-by-record comparison",
